@@ -25,4 +25,17 @@ def voidCancelPipeline (e : Option Nat) (ok : Bool) (v : Nat) : Option Nat :=
 def voidCancelPipelineOld (e : Option Nat) (ok : Bool) (v : Nat) : Option Nat :=
   voidReturnIs (callerOutput (cancelRecords e) ok v).2
 
+/-! ### the building blocks on their own (ops `unit …` of the harness) -/
+
+/-- `guardedWriter.Write`: the value is dropped iff the context is over or `done` is closed — the guard of the model's
+`UAct.write` steps (`s.ctxDone || s.fin`, `Props5.mapper_write_guard`, `reducer_write_guard`), whatever the capacity of
+the channel (collector: `workers`, output: 0). -/
+def guardDrops (ctxOver doneClosed : Bool) : Bool := ctxOver || doneClosed
+
+/-- `onceChan`: a buffer of capacity one that keeps the FIRST value written; `repanic` takes it out once. -/
+def onceChanAfter (vals : List Nat) : Option Nat := vals.head?
+
+/-- a function made by `once(fn)`: `fn` runs for the first call only, per instance. -/
+def onceRuns (calls : Nat) : Nat := if calls = 0 then 0 else 1
+
 end GoZero.C10
